@@ -105,6 +105,67 @@ func normSeg0(s sess.Segment) string {
 	return sb.String()
 }
 
+// part firstcmd: the very first command of a session, with no option changed, reports on the
+// profile as loaded: what it writes equals what the same report gives non-interactively (nothing
+// the shell does before its first prompt - such as composing its greeting - may have touched it).
+func runFirstCmd(c *harness.Ctx) harness.Result {
+	r := c.Rng
+	p := GenProfile(r)
+	for i, sm := range p.Sample {
+		if sm.NumLabel == nil {
+			sm.NumLabel = map[string][]int64{}
+		}
+		sm.NumLabel["latency"] = []int64{int64(1 + i)}
+		if i%2 == 0 {
+			if sm.NumUnit == nil {
+				sm.NumUnit = map[string][]string{}
+			}
+			sm.NumUnit["latency"] = []string{"milliseconds"}
+		}
+	}
+	for _, f := range p.Function {
+		if r.Intn(2) == 0 && f.Filename != "" {
+			f.Filename = "/proc/self/cwd/" + strings.TrimLeft(f.Filename, "/")
+		}
+	}
+	format := []string{"tags", "traces", "raw", "top", "tree", "peek"}[r.Intn(6)]
+	cmd, extra := format, map[string]string{}
+	if format == "peek" {
+		cmd, extra = "peek .", map[string]string{"peek": "."}
+	}
+	var buf bytes.Buffer
+	p.WriteUncompressed(&buf)
+	res := harness.Result{NonTrivial: true, Sig: fmt.Sprint("first ", format, c.Index), Sample: map[string]any{"command": cmd}}
+	sr, err := sess.Run(sess.Spec{Profile: buf.Bytes(), Mode: "interactive", Lines: []string{cmd + " > first.txt"}, Dir: c.Tmp + "/s"}, 2*time.Minute)
+	if err != nil || sr.Panic != "" || len(sr.Segments) < 1 {
+		return harness.Result{Verdict: harness.Inconclusive, Detail: fmt.Sprintf("session: %v %s", err, sr.Panic)}
+	}
+	got := ""
+	for n, body := range sr.Segments[0].Files {
+		if strings.HasSuffix(n, "first.txt") {
+			got = string(sess.FileBytes(body))
+		}
+	}
+	b := map[string]bool{format: true}
+	if format == "peek" {
+		b = map[string]bool{}
+	}
+	want, ui, rr := drv.Report(map[string]*profile.Profile{"p": p}, []string{"p"}, b, extra, nil, nil, nil)
+	if rr.Panic != "" || rr.Err != nil {
+		return harness.Result{Verdict: harness.Inconclusive, Detail: fmt.Sprintf("one-shot run failed: %v %s %v", rr.Err, rr.Panic, ui.Errs)}
+	}
+	c.Stat("first_commands", 1)
+	// the shell prints the profile's legend (file, build id, type, time, duration) once in its
+	// greeting and leaves it out of its reports
+	legend := regexp.MustCompile(`(?m)^(File|Build ID|Type|Time|Duration|Doc): .*\n`)
+	got, want = legend.ReplaceAllString(got, ""), legend.ReplaceAllString(want, "")
+	if got != want {
+		res.Verdict = harness.Violated
+		res.Detail = fmt.Sprintf("%q as the first command of an interactive session writes something else than pprof -%s on the same profile with the same (default) options\n%s", cmd, format, diff(got, want))
+	}
+	return res
+}
+
 func runInteractive(c *harness.Ctx) harness.Result {
 	r := c.Rng
 	p := GenProfile(r)
@@ -385,6 +446,7 @@ func init() {
 			{Name: "interactive", Quick: 500, Thor: 10000, Run: runInteractive},
 			{Name: "web", Quick: 500, Thor: 10000, Run: runWeb},
 			{Name: "disasm", Quick: 40, Thor: 1500, Run: runDisasm},
+			{Name: "firstcmd", Quick: 120, Thor: 4000, Run: runFirstCmd},
 		},
 		MinNonTrivial: func(string) int { return 100 },
 		Finish: func(tier string, st map[string]int64) string {
